@@ -19,6 +19,8 @@ import (
 //                 the server end timestamps every line it receives (registration included).
 //   kind "hold":  a connected client (Flood=false) whose flood counters are set so that a line is
 //                 held; the effect of two WHOLE write() calls on counters and wire is observed.
+//   kind "fresh": a brand-new client whose counters are NEVER touched (Flood=false): registration,
+//                 then 3-4 lines of varied content at once; arrival stamps since creation.
 // Every choice comes from the one PRNG; clock readings are measurements, not choices.
 
 var c10conn *client.Conn
@@ -168,10 +170,49 @@ func c10BurstCase(r *Rand, flood bool, quick bool) Fields {
 	return F(xs...)
 }
 
+// line content must never matter to flood protection: every submitted line of the hold and
+// fresh kinds takes its shape from a PRNG-shuffled cycle over these kinds, so that each kind
+// occurs among any 5 consecutive lines
+var c10Kinds = []string{"PONG :", "PING :", "PRIVMSG #chan :", "PASS", ""}
+
+type c10Cycle struct {
+	perm []int
+	k    int
+}
+
+func c10NewCycle(r *Rand) *c10Cycle {
+	p := []int{0, 1, 2, 3, 4}
+	for i := len(p) - 1; i > 0; i-- {
+		j := r.Intn(i + 1)
+		p[i], p[j] = p[j], p[i]
+	}
+	return &c10Cycle{perm: p}
+}
+
+// a line of about n bytes (at least the kind's prefix plus one byte) of the next kind
+func (cy *c10Cycle) line(r *Rand, n int) string {
+	pre := c10Kinds[cy.perm[cy.k%len(cy.perm)]]
+	cy.k++
+	if n <= len(pre) {
+		n = len(pre) + 1
+	}
+	return pre + string(r.Bytes(n-len(pre), []byte("abcdefghijklmnopqrstuvwxyz0123456789 ")))
+}
+
+// fresh case: 3 or 4 lines of 30..60 bytes; with NICK (9 bytes) and USER (24) the accumulated
+// charge passes 10 s at the 5th line on the wire by at least 1 s
+func c10FreshCase(r *Rand, cy *c10Cycle, m int) Fields {
+	xs := []interface{}{"fresh"}
+	for k := 0; k < m; k++ {
+		xs = append(xs, cy.line(r, r.Range(30, 60)))
+	}
+	return F(xs...)
+}
+
 // hold case: style 0 = first line held (and so must the second be), 1 = first passes, second
 // held, 2 = neither held (instant)
-func c10HoldCase(r *Rand, style int) Fields {
-	c1, c2 := int64(r.Range(0, 20)), int64(r.Range(0, 20))
+func c10HoldCase(r *Rand, cy *c10Cycle, style int) Fields {
+	l1, l2 := cy.line(r, r.Range(1, 20)), cy.line(r, r.Range(1, 20))
 	var bad int64
 	switch style {
 	case 0:
@@ -181,7 +222,7 @@ func c10HoldCase(r *Rand, style int) Fields {
 	default:
 		bad = c10U(r, 5*c10Sec)
 	}
-	return F("hold", c1, bad, c2)
+	return F("hold", l1, bad, l2)
 }
 
 type c10Future struct {
@@ -200,16 +241,24 @@ func c10Gen(r *Rand, tier string, scale int, emit func(Fields)) {
 	if tier == "thorough" {
 		nh = 8
 	}
+	cy := c10NewCycle(r)
 	for k := 0; k < nh; k++ {
-		holds = append(holds, c10HoldCase(r, k%2))
+		holds = append(holds, c10HoldCase(r, cy, k%2))
 	}
-	holds = append(holds, c10HoldCase(r, 2), c10HoldCase(r, 2))
+	holds = append(holds, c10HoldCase(r, cy, 2), c10HoldCase(r, cy, 2))
+	for k := 0; k < nh; k++ {
+		holds = append(holds, c10FreshCase(r, cy, 3+k%2))
+	}
 	// holds sleep in real time (2 s per held line): run them concurrently, each on its own client
 	for _, h := range holds {
 		fut := &c10Future{done: make(chan struct{})}
 		c10memo.Store(h.String(), fut)
 		go func(h Fields, fut *c10Future) {
-			fut.obs = c10RunHold(h)
+			if h.S(0) == "fresh" {
+				fut.obs = c10RunFresh(h)
+			} else {
+				fut.obs = c10RunHold(h)
+			}
 			close(fut.done)
 		}(h, fut)
 	}
@@ -267,6 +316,13 @@ func c10Exec(in Fields) Fields {
 			return fut.obs
 		}
 		return c10RunHold(in)
+	case "fresh":
+		if f, ok := c10memo.LoadAndDelete(in.String()); ok {
+			fut := f.(*c10Future)
+			<-fut.done
+			return fut.obs
+		}
+		return c10RunFresh(in)
 	}
 	return F("bad")
 }
@@ -360,7 +416,7 @@ func c10NewSession(flood bool) *c10Session {
 // before the set, and each read happens after the arrival of the line just written, when
 // write() has nothing left to do but log.
 func c10RunHold(in Fields) Fields {
-	c1, bad, c2 := in.I(1), in.I(2), in.I(3)
+	line1, bad, line2 := in.S(1), in.I(2), in.S(3)
 	s := c10NewSession(false)
 	if s == nil || s.count() != 2 {
 		return F("noconn")
@@ -369,18 +425,50 @@ func c10RunHold(in Fields) Fields {
 	t0 := time.Now()
 	s.c.VerifSetFloodState(time.Duration(bad), t0)
 	off := int64(t0.Sub(s.created))
-	s.c.Raw(strings.Repeat("x", c1))
+	s.c.Raw(line1)
 	if !s.waitFor(3, 12*time.Second) {
 		return F("line1-missing")
 	}
 	b1, l1 := s.c.VerifFloodState()
 	r1 := int64(time.Since(t0))
-	s.c.Raw(strings.Repeat("y", c2))
+	s.c.Raw(line2)
 	if !s.waitFor(4, 12*time.Second) {
 		return F("line2-missing", int64(b1), int64(l1.Sub(t0)))
 	}
 	b2, l2 := s.c.VerifFloodState()
 	return F(int64(l1.Sub(t0)), int64(b1), s.rec(2).t-off, r1, int64(b2), int64(l2.Sub(t0)), s.rec(3).t-off)
+}
+
+// c10RunFresh: the counters of this client are never set or read; s.created was taken just
+// before client.Client(cfg), so the model's fresh state has lastsent >= the origin of the stamps
+func c10RunFresh(in Fields) Fields {
+	s := c10NewSession(false)
+	if s == nil {
+		return F("noconn")
+	}
+	defer s.close()
+	nreg := s.count()
+	lines := in[1:]
+	submit := make([]int64, len(lines))
+	var total int64
+	for k, l := range lines {
+		total += c10Linetime(int64(len(l)))
+		submit[k] = int64(time.Since(s.created))
+		s.c.Raw(string(l))
+	}
+	s.waitFor(nreg+len(lines), time.Duration(total)+10*time.Second)
+	s.mu.Lock()
+	got := append([]c10rec{}, s.recs...)
+	s.mu.Unlock()
+	xs := []interface{}{nreg}
+	for i, rc := range got {
+		q := rc.t
+		if i >= nreg && i-nreg < len(submit) {
+			q = submit[i-nreg]
+		}
+		xs = append(xs, rc.n, rc.t, q)
+	}
+	return F(xs...)
 }
 
 func c10RunBurst(in Fields) Fields {
@@ -477,12 +565,15 @@ func c10RunBurst(in Fields) Fields {
 }
 
 func c10Class(in Fields) string {
+	if in.S(0) == "fresh" {
+		return fmt.Sprintf("fresh:%d-lines", len(in)-1)
+	}
 	if in.S(0) == "hold" {
-		p := int64(in.I(2)) + c10Linetime(int64(in.I(1)))
+		p := int64(in.I(2)) + c10Linetime(int64(len(in[1])))
 		switch {
 		case p > c10Threshold:
 			return "hold:first-and-second-held"
-		case p+c10Linetime(int64(in.I(3))) > c10Threshold:
+		case p+c10Linetime(int64(len(in[3]))) > c10Threshold:
 			return "hold:second-held"
 		}
 		return "hold:none-held"
